@@ -102,6 +102,10 @@ class Gen:
             # a helper with two return paths, each returning a different computed boolean (the merged result is one value)
             self.calls += 1
             return ["cmpsel", self.cond(env, depth + 1), self.vatom(env), self.vatom(env)]
+        if c == 6 and rs.below(3) == 0 and env["kind"] != "concurrent":
+            # an if-expression over conditions whose else operand is an explicit bool(...) cast (a cast the compiler removes
+            # again: the operand has to follow the replacement)
+            return ["cite", self.cond(env, depth + 1), self.cond(env, depth + 1), self.cond(env, depth + 1)]
         if c == 6:
             return ["not", self.cond(env, depth + 1)]
         if c < 9:
@@ -447,6 +451,8 @@ def r_c(c):
         return f"({r_c(c[1])} {k} {r_c(c[2])})"
     if k == "cmpsel":
         return f"cmpsel({r_c(c[1])}, {r_v(c[2])}, {r_v(c[3])})"
+    if k == "cite":
+        return f"(bool({r_c(c[2])}) if {r_c(c[1])} else bool({r_c(c[3])}))"
     op = {"eq": "==", "ne": "!=", "lt": "<", "ge": ">="}[k]
     return f"({r_v(c[1])} {op} {r_v(c[2])})"
 
